@@ -346,6 +346,59 @@ def history_scenario(rng, sid, rounds=6, crashes=2, clock_p=0.0, pings=True):
     return {"id": sid, "cfg": cfg, "ans": ans, "stim": stim}
 
 
+def ping_scenario(rng, sid):
+    """A successful install whose reboot is refused, then a long reboot wait: pings (genuine, failing, forged, replayed),
+    reboot-timer fires, control requests."""
+    cup = rng.random() < 0.75
+    apps = rand_apps(rng, rng.choice([1, 2, 3]))
+    ids = [a["id"] for a in apps]
+    cfg = {"mode": "start", "apps": apps}
+    if cup:
+        cfg["cup"] = {"latest": 1, "hist": [3]}
+    ans = {}
+    doc = rand_doc(rng, ids, offer_p=0.9, allow_unknown=False)
+    if n_offered(doc) == 0:
+        doc["apps"][0]["uc"] = [{"status": "ok", "ver": "2.0.0.0"}]
+    ans["http.uc#1"] = resp(200, body={"doc": doc})
+    ans["inst.plan#1"] = {"ok": ["plan1"]}
+    ans["pol.start#1"] = "ok"
+    ans["pol.check#1"] = {"d": "ok", "src": rng.choice(["same", "ondemand"]), "proxy": True, "dis": False, "same": False}
+    ans["inst.install#1"] = {"results": ["i"] * n_offered(doc), "progress": [], "pmode": "seq"}
+    ans["pol.rbneeded#1"] = True
+    nping = rng.randint(3, 7)
+    for k in range(1, nping + 3):
+        ans["pol.rballowed#%d" % k] = k > nping or rng.random() < 0.1
+        ans["pol.next#%d" % (k + 1)] = rand_pol_next(rng)
+        r = rng.random()
+        if r < 0.35:
+            a = resp(200, body={"doc": rand_doc(rng, ids, offer_p=0.0)}, xra=rand_xra(rng, 0.4))
+        elif r < 0.5:
+            a = resp(rng.choice([200, 503]), xra=rand_xra(rng, 0.5), body={"garbage": rng.choice(GARBAGE)})
+        elif r < 0.6:
+            a = {"cls": rng.choice(["transport", "timeout", "user"])}
+        elif cup:
+            a = resp(rng.choice([200, 200, 503]), auth=rng.choice(FORGERIES), xra=rand_xra(rng, 0.7),
+                     body={"doc": rand_doc(rng, ids, offer_p=0.3)}, j=rng.randint(1, 4))
+            if rng.random() < 0.2:
+                a["etag_raw"] = etag_raw(rng)
+        else:
+            a = resp(200, body={"doc": rand_doc(rng, ids, offer_p=0.0)}, xra=rand_xra(rng, 0.4))
+        ans["http.ping#%d" % k] = a
+    stim = [{"at": {"p": "idle", "n": 1}, "do": [{"s": "fire", "sel": "for"}, {"s": "fire", "sel": "until"}]}]
+    for n in range(2, 2 + 2 * nping):
+        r = rng.random()
+        if r < 0.6:
+            do = [{"s": "fire", "sel": "for", "secs": rng.choice([30, 600])}, {"s": "fire", "sel": "until"}]
+        elif r < 0.8:
+            do = [{"s": "fire", "sel": "for", "secs": 1800}]
+        else:
+            do = [{"s": "ctl", "h": rng.choice([0, 1]), "src": rng.choice(["ondemand", "scheduledtask"])}]
+        stim.append({"at": {"p": "idle", "n": n}, "do": do})
+    if rng.random() < 0.3:
+        stim.append({"at": {"p": "http.ping", "n": rng.randint(1, 3)}, "do": [{"s": "crash", "run": {}}]})
+    return {"id": sid, "cfg": cfg, "ans": ans, "stim": stim}
+
+
 EXTREME_INTS = ["0", "1", "-1", "4294967295", "4294967296", "2147483647", "9223372036854775807", "-9223372036854775808",
                 "1700000000000000", "86400000000", "-5000000"]
 WEIRD_URLS = ["not a url", "", "http://[::1]:8080/x?y=1", "http://h/ path", "https://h:99999/", "http://h/%zz?a=b&c",
@@ -417,6 +470,8 @@ def batch(seed, n, kinds=("oneshot", "start")):
             out.append(retry_scenario(rng, sid))
         elif kind == "history":
             out.append(history_scenario(rng, sid))
+        elif kind == "ping":
+            out.append(ping_scenario(rng, sid))
         elif kind == "robust":
             out.append(robust_scenario(rng, sid, i))
         else:
